@@ -209,7 +209,7 @@ def _elem(path, et):
             "emb": "N", "ovr": "N", "tsc": "N", "tin": "N", "trl": "N",
             "host": NONE, "ns": NONE, "sup": NONE, "isnull": False,
             "val": [], "vt": [], "cls": [], "kids": [], "scopes": [],
-            "lvl": path.count("/emb:")}
+            "lvl": path.count("/emb:"), "hp": "N"}
 
 
 def _emb(x):
@@ -297,6 +297,10 @@ def flatten(o, path="/", out=None, with_path=True, as_value=False):
         if with_path and o.path is not None:
             e["kids"].append("path")
             flatten(o.path, path + "path/", out)
+        elif o.path is not None:
+            # an embedded instance object that has a path: not transmitted,
+            # not compared (spec/CimWire.tla field hp)
+            e["hp"] = "Y"
     elif isinstance(o, CIMClass):
         e = _elem(path, "class")
         out.append(e)
@@ -492,6 +496,8 @@ class Conc:
         self.rng = rng
         self.exotic = exotic
         self.strings = strings
+        self.fixed = {}        # element index -> concrete value (KeyRel cases)
+        self.keyprops = {}     # name id -> concrete key property (own path)
 
     def name(self, nid):
         if self.exotic and nid in NAME_EXOTIC and self.rng.random() < 0.5:
@@ -528,6 +534,8 @@ def _shape_value(els, i, cx):
     value class and (for embedded objects / references) child elements"""
     e = els[i]
     sh = e["sh"]
+    if i in cx.fixed:
+        return cx.fixed[i]
     if sh in ("", "null"):
         return None
     if sh == "empty":
@@ -557,6 +565,53 @@ def is_array_shape(sh):
     return sh == "empty" or is_entry_shape(sh)
 
 
+# ---------------------------------------------------------------------------
+# the instance's own path and the same-named key property: the cases of
+# spec/CimWire.tla KeyRel.  An own keybinding element may carry "rel":
+#   "agree"    the keybinding gets the property's concrete value
+#   "value"    same type, a concrete value that differs (re-drawn if needed)
+#   "lexcase"  (string / char16) the two values differ in lexical case only
+# without "rel" both values are concretised independently.
+# ---------------------------------------------------------------------------
+def _fix_lexcase(els, i, cx):
+    for pj in _kids(els, i, ("ipath",)):
+        for kj in _kids(els, pj, ("kb",)):
+            kb = els[kj]
+            if kb.get("rel") != "lexcase":
+                continue
+            for qj in _kids(els, i, ("prop",)):
+                pr = els[qj]
+                if pr["nm"] != kb["nm"] or pr["sh"] != "scalar" or \
+                        pr["ty"] != kb["ty"]:
+                    continue
+                if kb["ty"] == "char16":
+                    c = cx.rng.choice("aqZ\u00e9\u0416")
+                    cx.fixed[qj] = Char16(c)
+                    cx.fixed[kj] = Char16(c.swapcase())
+                elif kb["ty"] == "string":
+                    base = cx.rng.choice(["Fritz", "k", "Q", "\u00e9t\u00c9"]) + \
+                        conc_string([c for c in pr["vc"] if c != "cr"],
+                                    cx.rng)
+                    cx.fixed[qj] = base
+                    cx.fixed[kj] = base.swapcase()
+
+
+def _own_key_value(els, j, cx, v):
+    kb = els[j]
+    rel = kb.get("rel")
+    prop = cx.keyprops.get(kb["nm"])
+    if rel is None or prop is None or j in cx.fixed:
+        return v
+    if rel == "agree":
+        return prop.value
+    if rel == "value":
+        for _ in range(20):
+            if not v == prop.value:      # pylint: disable=unneeded-not
+                return v
+            v = conc_scalar(kb["ty"], rand_vc(kb["ty"], cx.rng), cx.rng)
+    return v
+
+
 def build(els, i, cx):
     """real pywbem object for abstract element i (0-based) and its subtree"""
     e = els[i]
@@ -569,6 +624,7 @@ def build(els, i, cx):
                 v = cx.rng.choice([0, 1, -5, 2**40, 1.5, -0.25])
             else:
                 v = _shape_value(els, j, cx)
+            v = _own_key_value(els, j, cx, v)
             kbs.append((cx.name(kb["nm"]), v))
         return CIMInstanceName(cx.name(e["nm"]), keybindings=kbs,
                                host=cx.host(e["host"]),
@@ -622,10 +678,27 @@ def build(els, i, cx):
                          parameters=parms, class_origin=cx.opt_name(e["co"]),
                          propagated=_b(e["pg"]), qualifiers=quals)
     if k == "inst":
-        props = [build(els, j, cx) for j in _kids(els, i, ("prop",))]
+        _fix_lexcase(els, i, cx)
+        pidx = _kids(els, i, ("prop",))
+        props = [build(els, j, cx) for j in pidx]
+        saved = cx.keyprops
+        cx.keyprops = {els[j]["nm"]: p for j, p in zip(pidx, props)}
         paths = [build(els, j, cx) for j in _kids(els, i, ("ipath",))]
-        return CIMInstance(cx.name(e["nm"]), properties=props,
-                           qualifiers=quals, path=paths[0] if paths else None)
+        cx.keyprops = saved
+        inst = CIMInstance(cx.name(e["nm"]), properties=props,
+                           qualifiers=quals)
+        if e.get("hp") == "Y" and not paths:
+            # an embedded instance that HAS a path (any of the three forms)
+            ns, host = cx.rng.choice(PATH_FORMS)
+            inst.path = CIMInstanceName(
+                inst.classname, keybindings=[("InstanceID", "emb:1")],
+                namespace=cx.ns(ns), host=cx.host(host))
+        if paths:
+            # the path is attached to the finished instance and taken as it
+            # is (CIMInstance(properties=..., path=...) would copy same-named
+            # property values into the keybindings)
+            inst.path = paths[0]
+        return inst
     if k == "class":
         props = [build(els, j, cx) for j in _kids(els, i, ("prop",))]
         meths = [build(els, j, cx) for j in _kids(els, i, ("meth",))]
@@ -942,7 +1015,8 @@ def run_str(spec, rng):
 def E(k, par, nm, **kw):
     e = {"k": k, "par": par, "nm": nm, "ty": "", "sh": "", "vc": [], "co": "N",
          "pg": "N", "asz": "N", "rc": "N", "emb": "N", "ovr": "N", "tsc": "N",
-         "tin": "N", "trl": "N", "host": "N", "ns": "N", "sup": "N"}
+         "tin": "N", "trl": "N", "host": "N", "ns": "N", "sup": "N",
+         "hp": "N"}
     e.update(kw)
     return e
 
@@ -952,13 +1026,12 @@ _VC_OF_TOKEN = {"i:min": "min", "i:max": "max", "i:int": "int", "b:T": "T",
                 "r:nan": "nan", "r:inf": "inf"}
 
 
-_PATH_KEY_NAMES = {"a": "k", "b": "l", "c": "y", "d": "z"}
-
-
-def from_builder(recs, rng):
+def from_builder(recs, rng, rels=None):
     """element records of the TLC builder machine -> abstract elements.
     Value classes TLC left open (which boundary, which datetime form) are
-    refined at random."""
+    refined at random.  `rels`: TLC's KeyRel case per element (keybindings
+    of the instance's own path vs. the same-named property); "value" on
+    strings is refined into another string / lexical case only."""
     idx = {r["path"]: i for i, r in enumerate(recs)}
     els = []
     for r in recs:
@@ -969,11 +1042,11 @@ def from_builder(recs, rng):
             parent = path[:path.rstrip("/").rfind("/") + 1]
             par = idx[parent] + 1
         e = E(r["et"], par, r["name"], ty=r["type"])
-        if r["et"] == "kb" and path.startswith("/path/kb:"):
-            # keys of the instance's own path: names disjoint from the
-            # property names (CIMInstance() copies a same-named property
-            # value into the path, which is not what the builder describes)
-            e["nm"] = _PATH_KEY_NAMES.get(r["name"], r["name"])
+        if rels is not None and rels[len(els)] in ("agree", "value"):
+            e["rel"] = rels[len(els)]
+            if e["rel"] == "value" and r["type"] in ("string", "char16") \
+                    and rng.random() < 0.5:
+                e["rel"] = "lexcase"
         if r["et"] in ("prop", "qual", "qdecl", "pval", "kb"):
             val = list(r["val"])
             if r["isnull"]:
@@ -1013,6 +1086,7 @@ def from_builder(recs, rng):
         e["asz"] = "N" if r["asize"] < 0 else str(r["asize"])
         for a in ("pg", "emb", "ovr", "tsc", "tin", "trl"):
             e[a] = r[a]
+        e["hp"] = r.get("hp", "N")
         if r["scopes"]:
             e["scopes"] = list(r["scopes"])
         els.append(e)
@@ -1246,7 +1320,7 @@ def unit_tree(kind, typ, sh, vc, where="root"):
     raise ValueError(kind)
 
 
-def emb_unit_tree(kind, emb, sh, where="root"):
+def emb_unit_tree(kind, emb, sh, where="root", hp="N"):
     """one embedded-object valued element (property / parameter value) of the
     given shape: spec/CimWireMC.tla AddEmb (EmbShapes: scalar, arrays with
     objects and NULL entries, and the object-less values NULL / empty array);
@@ -1261,7 +1335,48 @@ def emb_unit_tree(kind, emb, sh, where="root"):
     n = 1 if sh == "scalar" else (sh.count("v") if is_entry_shape(sh) else 0)
     for j in range(n):
         ok = "class" if emb == "object" and j % 2 == 1 else "inst"
-        els.append(E(ok, me, "bc"[j % 2]))
+        els.append(E(ok, me, "bc"[j % 2], hp=hp if ok == "inst" else "N"))
         els.append(E("prop", len(els), "d", ty="uint8", sh="scalar",
                      vc=["max"]))
     return els
+
+
+# the cases of spec/CimWire.tla KeyRel for a keybinding of the instance's own
+# path ("shape" split into its two members, "value" refined by "lexcase")
+KEY_RELS = ["free", "agree", "value", "lexcase", "type", "shape-null",
+            "shape-array"]
+PATH_FORMS = [("N", "N"), ("n", "N"), ("n", "h")]     # (namespace, host)
+
+
+def keyprop_unit_tree(typ, rel, form, vc, vc2, other_typ, extra):
+    """an instance WITH its path (form: no namespace / namespace / namespace
+    + host) whose keybinding `a` of CIM type `typ` stands in relation `rel`
+    to the same-named property; `extra`: a non-key property and a second,
+    free keybinding around it"""
+    ns, host = form
+    els = [E("inst", 0, "c")]
+    if extra:
+        els.append(E("prop", 1, "d", ty="uint16", sh="scalar", vc=["mid"]))
+    if rel != "free":
+        pt, psh, pvc = typ, "scalar", list(vc2 if rel == "value" else vc)
+        if rel == "type":
+            pt, pvc = other_typ, rand_vc_first(other_typ)
+        elif rel == "shape-null":
+            psh, pvc = "null", []
+        elif rel == "shape-array":
+            psh = "v"
+        els.append(E("prop", 1, "a", ty=pt, sh=psh, vc=pvc))
+    els.append(E("ipath", 1, "c", ns=ns, host=host))
+    me = len(els)
+    if extra:
+        els.append(E("kb", me, "b", ty="string", sh="scalar", vc=["ltr"]))
+    kb = E("kb", me, "a", ty=typ, sh="scalar", vc=list(vc))
+    if rel in ("agree", "value", "lexcase"):
+        kb["rel"] = rel
+    els.append(kb)
+    return els
+
+
+def rand_vc_first(typ):
+    return {"string": ["ltr", "ltr"], "char16": ["ltr"], "boolean": ["T"],
+            "datetime": ["ts"]}.get(typ, ["one"])
